@@ -165,8 +165,12 @@ isal_aes_xts_dec_128_expanded_key(const uint8_t *k2, const uint8_t *k1,
 #endif
 
 #ifdef FIPS_MODE
-        /* Compare entire expanded keys (16*11 bytes) */
-        if (memcmp(k1, k2, 16 * 11) == 0)
+        /*
+         * k1 is a decryption key schedule, k2 an encryption one: round key i of the
+         * former is round key 10-i of the latter (through InvMixColumns for 0 < i < 10),
+         * so identical keys show as identical first/last round keys, not identical schedules
+         */
+        if (memcmp(k1 + 16 * 10, k2, 16) == 0 && memcmp(k1, k2 + 16 * 10, 16) == 0)
                 return ISAL_CRYPTO_ERR_XTS_SAME_KEYS;
 
         if (isal_self_tests())
@@ -311,8 +315,12 @@ isal_aes_xts_dec_256_expanded_key(const uint8_t *k2, const uint8_t *k1,
 #endif
 
 #ifdef FIPS_MODE
-        /* Compare entire expanded keys (16*15 bytes) */
-        if (memcmp(k1, k2, 16 * 15) == 0)
+        /*
+         * k1 is a decryption key schedule, k2 an encryption one: round key i of the
+         * former is round key 14-i of the latter (through InvMixColumns for 0 < i < 14),
+         * so identical keys show as identical first/last round keys, not identical schedules
+         */
+        if (memcmp(k1 + 16 * 14, k2, 16) == 0 && memcmp(k1, k2 + 16 * 14, 16) == 0)
                 return ISAL_CRYPTO_ERR_XTS_SAME_KEYS;
 
         if (isal_self_tests())
